@@ -4,7 +4,7 @@ import os
 import shutil
 
 from ..common import tlc_retry, SPEC
-from . import align as xa, trailcmt as xt, cmtindent as xc
+from . import align as xa, trailcmt as xt, cmtindent as xc, nlbrace as xn, ppindent as xp
 
 GEN = {
     "Align": ("SPECIFICATION Spec\nCONSTANTS\n  Indent = 5\n  TabStops = {FALSE}\n  TabSize = 4\n  Emit = TRUE\n  MaxLines = 3\n  Widths = {1, 4, 8}\n  Lens = {1, 2}\n"
@@ -14,6 +14,10 @@ GEN = {
     "CmtIndent": ("SPECIFICATION Spec\nCONSTANTS\n  Indent = 5\n  Emit = TRUE\n  MaxLines = 3\n  Widths = {4, 8}\n  Shifts <- DefShifts\n  Gaps = {1, 4}\n"
                   "  CmtCols = {1, 5, 7, 9, 13, 17}\n  Breaks = {1, 2}\n  Threshs = {3}\nINVARIANTS EmitCase\nCHECK_DEADLOCK FALSE\n", lambda e: xc.render(e["prog"])),
 }
+GEN["NlBrace"] = (open(os.path.join(SPEC, "NlBrace.cfg")).read().replace("Emit = FALSE", "Emit = TRUE").replace("INVARIANTS Good", "INVARIANTS EmitCase"),
+                  lambda e: xn.render(e)[1])
+GEN["PpIndent"] = ("SPECIFICATION Spec\nCONSTANTS\n  MaxLines = 7\n  MaxDepth = 2\n  Counts = {1}\n  SpaceCounts = {0}\n  IndentColumns = 4\n  InCols = {1, 3}\n  InGaps = {0, 2}\n"
+                   "  Emit = TRUE\nINVARIANTS EmitProg\nCHECK_DEADLOCK FALSE\n", lambda e: xp.render(e["prog"], 1 + 2 * (len(e["prog"]) % 2), len(e["prog"]) % 3))
 # the invariants that say "a second run of this pass moves nothing" in the region of option values the profiles stay in
 STABLE = {
     "Align": ("Align", "thresh = 0 or no align_keep_extra_space (StableWithoutThresh in Align.cfg; the tighten step of Add())"),
